@@ -14,6 +14,7 @@ import (
 func init() {
 	vRegister("VerifHarness_C04_QueueHistory", VerifHarness_C04_QueueHistory)
 	vRegister("VerifHarness_C04_QueueBufferedClose", VerifHarness_C04_QueueBufferedClose)
+	vRegister("VerifHarness_C04_BufferedBurst", VerifHarness_C04_BufferedBurst)
 }
 
 func vC04Dir() string {
@@ -129,6 +130,66 @@ func VerifHarness_C04_QueueHistory() {
 	vObserve("pending", len(pending))
 	q.Close()
 	vReach("C04.history.end")
+}
+
+// A burst of buffered appends (>= 10 writers hold limiter tokens) that may roll the tail segment
+// over, followed by the end of the burst (the other writers leave without appending, e.g. their
+// blocks were over the queue's size limit) and either one more ordinary append or a clean
+// restart: every accepted block is delivered, in order.
+func VerifHarness_C04_BufferedBurst() {
+	dir := vC04Dir()
+	defer os.RemoveAll(dir)
+	segSize := int64(0)
+	switch vChoice("segmentSize", 3) {
+	case 1:
+		segSize = 19
+	case 2:
+		segSize = 30
+	}
+	q := vC04Open(dir, 1<<20, segSize)
+	for i := 0; i < 9; i++ {
+		q.limiter <- struct{}{}
+	}
+	var pending [][]byte
+	max := 3
+	if vThorough() {
+		max = 4
+	}
+	n := vLen("bufferedAppends", 1, max)
+	for i := 0; i < n; i++ {
+		b := vBytes("block", vLen("blockLen", 0, 2))
+		if err := q.Append(b); err == nil {
+			pending = append(pending, b)
+		} else {
+			vAssert(err == ErrSegmentFull, "C04.append-error-kind")
+		}
+	}
+	// the burst ends
+	for i := 0; i < 9; i++ {
+		<-q.limiter
+	}
+	if vBool("restartInsteadOfAppend") {
+		vAssert(q.Close() == nil, "C04.close-ok")
+		q = vC04Open(dir, 1<<20, segSize)
+	} else {
+		marker := []byte{0xAA}
+		if q.Append(marker) == nil {
+			pending = append(pending, marker)
+		}
+	}
+	for k := 0; k < len(pending); k++ {
+		b, err := vC04Next(q)
+		vAssert(err == nil && bytes.Equal(b, pending[k]), "C04.drain-in-order")
+		if err != nil {
+			break
+		}
+		vAssert(q.Advance() == nil, "C04.advance-ok")
+	}
+	_, err := vC04Next(q)
+	vAssert(err == io.EOF, "C04.drained-queue-is-eof")
+	vObserve("accepted", len(pending))
+	q.Close()
+	vReach("C04.burst.end")
 }
 
 // Appends that were acknowledged while >= 10 writers held limiter tokens are buffered in memory;
